@@ -1,4 +1,5 @@
 """C07 — ToJSONSchema describes exactly what Parse accepts."""
+import os
 from . import common as C
 
 MANIFEST = dict(
@@ -7,7 +8,8 @@ MANIFEST = dict(
    note="PARTIAL: holds on the Representable fragment only (see notes/C07.md for the excluded classes, each a demonstrated defect of the pinned tree). Lazy, discriminated unions, string formats, Default/Prefault, Map, Set, Struct, File, Pipe/Transform are not modelled; user regexes come from a five-entry table with hand-written meanings; registry IDs and reused:'ref' documents are compared after inlining the emitted $ref nodes (the raw document is what the independent validator judges). Instances: ASCII strings, numbers that are multiples of 1/4 below 2^51. Trusted: Lean kernel; the hand-written jsValid (cross-checked on every generated case against kaptinlin/jsonschema on the real document); the Go harness, schema-directed embedding and comparer. The model is validated on generated cases, not for all inputs.",
    design="DESIGN.md §5 C07")
 
-MODULES = ["Gozod.Proofs.C07"]
+MODULES = ["Gozod.Proofs.C07", "Gozod.Proofs.C07Cases"]
+GEN = os.path.join(C.LEAN, "Gozod", "Gen", "ToJsonCases.lean")
 THEOREMS = [
     "Gozod.C07.c07_equiv_partial", "Gozod.C07.c07_pres", "Gozod.C07.c07_sound", "Gozod.C07.c07_complete",
     "Gozod.C07.c07_wellformed", "Gozod.C07.eqv", "Gozod.C07.pres",
@@ -19,6 +21,11 @@ THEOREMS = [
     "Gozod.C07.witness_num_bound_merge", "Gozod.C07.witness_length_overwrites", "Gozod.C07.witness_size_overwrites",
     "Gozod.C07.witness_int_kind_range", "Gozod.C07.witness_strict_catchall", "Gozod.C07.witness_nested_strip",
     "Gozod.C07.witness_strip_size_after_strip", "Gozod.C07.witness_literal_mixed_kinds", "Gozod.C07.c07_full_false",
+    # over the tables regenerated from jsonschema/to.go + core/constants.go (Gen/ToJsonCases.lean)
+    "Gozod.C07.c07_codes_covered", "Gozod.C07.c07_cases_partition", "Gozod.C07.c07_modelled_branches", "Gozod.C07.c07_tail_is_applyBag",
+    "Gozod.C07.c07_unmodelled_gap", "Gozod.C07.c07_unmodelled_rest", "Gozod.C07.c07_default_unrepresentable",
+    "Gozod.C07.c07_range_defaults_int", "Gozod.C07.c07_range_defaults_flt", "Gozod.C07.c07_range_defaults_depth", "Gozod.C07.c07_range_defaults_domain",
+    "Gozod.C07.c07_bag_keywords", "Gozod.C07.c07_bag_model_instances", "Gozod.C07.c07_bag_renamed", "Gozod.C07.c07_option_tests", "Gozod.C07.c07_composite_types",
 ]
 
 def verdict_ok(impl):
@@ -109,10 +116,32 @@ def metaschema_check(res):
             break
     shutil.rmtree(d, ignore_errors=True)
 
-def run(res):
-    ok, detail = C.prove(res, MODULES, THEOREMS)
+def translate(res):
+    """regenerate Gen/ToJsonCases.lean (go/ast over jsonschema/to.go + core/constants.go of REPO's working tree)."""
+    ok, out = C.build_harness("C07")
     if not ok:
-        C.tie_broken(res, "proof Gozod.Proofs.C07", detail)
+        return "harness C07 does not build against the library:\n" + out[-3000:]
+    env = C.goenv(); env["VERIF_REPO"] = C.REPO; env["C07_GEN"] = GEN
+    rc, out = C.run([C.harness_bin("C07")], env=env, timeout=600)
+    if rc != 0:
+        return "translator failed (rc=%d):\n%s" % (rc, out[-3000:])
+    if "rewritten" in out: res.notes.append("Gen/ToJsonCases.lean changed and was rewritten")
+    return None
+
+def run(res):
+    # translator + proofs under one lock: the regenerated table and the proof run belong to the same tree
+    with C.Lock("c07-gen"):
+        terr = translate(res)
+        if terr:
+            C.tie_broken(res, "translator C07 (jsonschema/to.go -> Gen/ToJsonCases.lean)", terr)
+            ok, detail = C.prove(res, MODULES[:1], THEOREMS[:30])   # the 30 theorems of Proofs/C07.lean
+        else:
+            ok, detail = C.prove(res, MODULES, THEOREMS)
+    if not ok:
+        C.tie_broken(res, "proof Gozod.Proofs.C07 / C07Cases (the latter is over the tables regenerated from jsonschema/to.go)", detail)
+    # structure fingerprints of the hand-transcribed functions (vlib/fingerprints/C07.json): a changed structure with a green
+    # correspondence is a broken tie (the transcription may no longer mirror the function); a text-only change is noted
+    changed = C.fingerprint(res, "C07")
     data, err = C.correspond(res, "C07")
     if data is None:
         C.tie_broken(res, "correspondence C07/toJS+accepts", err)
@@ -162,6 +191,14 @@ def run(res):
         "Per schema: the emitted document (1 case) and up to 60 instances at / one below / one above every constant in the schema, missing / extra / null members, "
         "wrong kinds, non-ASCII strings. impl observation = (Parse verdict, independent validator on returned value, independent validator on input). "
         "distinct = distinct op lines; histogram = node kinds, checks and verdict triples.")
+    structural = [c for c in changed if c[2] in ("structure", "missing")]
+    if structural and not any(sfx == "" for _, sfx in res.violations):
+        C.tie_broken(res, "structure fingerprint C07", "these functions no longer have the structure the Lean transcription was written against "
+                     "(switch cases / calls / literals / control-flow skeleton), and the correspondence run found no disagreement:\n"
+                     + "\n".join("  %s [%s: %s] transcribed by %s" % (c[0], c[2], c[3], c[1]) for c in structural)
+                     + "\nre-validate the transcription, then `./check --fingerprint C07 --update`")
+    for c in changed:
+        if c[2] == "text": res.notes.append("source text of %s changed (structure unchanged); transcribed by %s" % (c[0], c[1]))
     res.coverage["parse_panics_counted_as_reject"] = stats.get("parse_panics", 0)
     res.coverage["conversions"] = stats.get("conversions", 0)
     res.coverage["later_conversions_checked_against_first_document"] = nhist
